@@ -204,25 +204,27 @@ type Call struct {
 }
 
 type Proc struct {
-	ID       int
-	w        *World
-	Prog     []Call
-	CallIdx  int // index of the call in progress or about to start
-	Results  []string
-	resume   chan struct{}
-	started  bool
-	Finished bool
-	Crashed  bool
-	killed   bool
-	Panic    string
-	pending  Op
-	obs      uint64 // rolling hash of everything the process has observed
-	fds      []*fd
-	randCtr  int
-	tmpCtr   int
-	OpCount  int // all vfs calls made so far (visible or not)
-	CrashAt  int // if >0: crash immediately before the vfs call with this ordinal (1-based)
-	InCall   bool
+	ID        int
+	w         *World
+	Prog      []Call
+	CallIdx   int // index of the call in progress or about to start
+	Results   []string
+	resume    chan struct{}
+	started   bool
+	Finished  bool
+	Crashed   bool
+	killed    bool
+	Panic     string
+	pending   Op
+	obs       uint64 // rolling hash of everything the process has observed
+	fds       []*fd
+	randCtr   int
+	tmpCtr    int
+	OpCount   int  // all vfs calls made so far (visible or not)
+	CrashAt   int  // if >0: crash immediately before the vfs call with this ordinal (1-based)
+	faultNext bool // the pending filesystem call fails with EIO and has no effect (injected fault)
+	Faults    int
+	InCall    bool
 	// Local is free for the harness (e.g. the process's handles).
 	Local map[string]interface{}
 }
@@ -259,6 +261,26 @@ func (p *Proc) point(op Op) {
 }
 
 // enter is called at the start of every vfs call. visible decides whether it is a scheduling point.
+// Faultable reports whether an injected I/O fault may hit this kind of call. Removals and
+// closes are excluded: a failed removal leaves residue by definition, not by a defect.
+func Faultable(kind string) bool {
+	switch kind {
+	case "create", "createx", "open", "tempfile", "rename", "readfile", "readdir", "write", "writefile", "link", "stat":
+		return true
+	}
+	return false
+}
+
+// takeFault consumes an injected fault for the call the process is about to perform.
+func (p *Proc) takeFault() bool {
+	if p.faultNext {
+		p.faultNext = false
+		p.Faults++
+		return true
+	}
+	return false
+}
+
 func (w *World) enter(op Op, visible bool) *Proc {
 	p := w.cur
 	if p == nil {
@@ -357,6 +379,11 @@ func (w *World) OpenFile(name string, flag int, perm os.FileMode) (rt.File, erro
 	}
 	p := w.enter(Op{Kind: kind, Name: b}, true)
 	ev := &Event{Pid: p.ID, Op: Op{Kind: kind, Name: b}}
+	if p.takeFault() {
+		ev.Err = "EIO"
+		w.record(ev)
+		return nil, pathErr("open", name, syscall.EIO)
+	}
 	if berr != nil {
 		ev.Err = "ENOENT"
 		w.record(ev)
@@ -420,6 +447,11 @@ func (w *World) TempFile(dir, pattern string) (rt.File, error) {
 	}
 	p = w.enter(Op{Kind: "tempfile", Name: nm}, true)
 	ev := &Event{Pid: p.ID, Op: Op{Kind: "tempfile", Name: nm}}
+	if p.takeFault() {
+		ev.Err = "EIO"
+		w.record(ev)
+		return nil, pathErr("open", filepath.Join(dir, nm), syscall.EIO)
+	}
 	if filepath.Clean(dir) != filepath.Clean(w.Dir) {
 		ev.Err = "ENOENT"
 		w.record(ev)
@@ -447,6 +479,11 @@ func (w *World) Rename(oldpath, newpath string) error {
 	b, e2 := w.base(newpath)
 	p := w.enter(Op{Kind: "rename", Name: a, Name2: b}, true)
 	ev := &Event{Pid: p.ID, Op: Op{Kind: "rename", Name: a, Name2: b}}
+	if p.takeFault() {
+		ev.Err = "EIO"
+		w.record(ev)
+		return &os.LinkError{Op: "rename", Old: oldpath, New: newpath, Err: syscall.EIO}
+	}
 	if e1 != nil || e2 != nil || w.names[a] == nil {
 		ev.Err = "ENOENT"
 		w.record(ev)
@@ -469,6 +506,11 @@ func (w *World) Link(oldname, newname string) error {
 	b, e2 := w.base(newname)
 	p := w.enter(Op{Kind: "link", Name: a, Name2: b}, true)
 	ev := &Event{Pid: p.ID, Op: Op{Kind: "link", Name: a, Name2: b}}
+	if p.takeFault() {
+		ev.Err = "EIO"
+		w.record(ev)
+		return &os.LinkError{Op: "link", Old: oldname, New: newname, Err: syscall.EIO}
+	}
 	if e1 != nil || e2 != nil || w.names[a] == nil {
 		ev.Err = "ENOENT"
 		w.record(ev)
@@ -506,6 +548,11 @@ func (w *World) ReadFile(name string) ([]byte, error) {
 	b, berr := w.base(name)
 	p := w.enter(Op{Kind: "readfile", Name: b}, true)
 	ev := &Event{Pid: p.ID, Op: Op{Kind: "readfile", Name: b}}
+	if p.takeFault() {
+		ev.Err = "EIO"
+		w.record(ev)
+		return nil, pathErr("read", name, syscall.EIO)
+	}
 	ino := w.names[b]
 	if berr != nil || ino == nil {
 		ev.Err = "ENOENT"
@@ -522,6 +569,11 @@ func (w *World) WriteFile(name string, data []byte, perm os.FileMode) error {
 	b, berr := w.base(name)
 	p := w.enter(Op{Kind: "writefile", Name: b}, true)
 	ev := &Event{Pid: p.ID, Op: Op{Kind: "writefile", Name: b}}
+	if p.takeFault() {
+		ev.Err = "EIO"
+		w.record(ev)
+		return pathErr("write", name, syscall.EIO)
+	}
 	if berr != nil {
 		ev.Err = "ENOENT"
 		w.record(ev)
@@ -546,6 +598,11 @@ func (w *World) WriteFile(name string, data []byte, perm os.FileMode) error {
 func (w *World) ReadDir(dir string) ([]os.FileInfo, error) {
 	p := w.enter(Op{Kind: "readdir"}, true)
 	ev := &Event{Pid: p.ID, Op: Op{Kind: "readdir"}}
+	if p.takeFault() {
+		ev.Err = "EIO"
+		w.record(ev)
+		return nil, pathErr("readdir", dir, syscall.EIO)
+	}
 	if filepath.Clean(dir) != filepath.Clean(w.Dir) {
 		ev.Err = "ENOENT"
 		w.record(ev)
@@ -564,6 +621,11 @@ func (w *World) Stat(name string) (os.FileInfo, error) {
 	b, berr := w.base(name)
 	p := w.enter(Op{Kind: "stat", Name: b}, true)
 	ev := &Event{Pid: p.ID, Op: Op{Kind: "stat", Name: b}}
+	if p.takeFault() {
+		ev.Err = "EIO"
+		w.record(ev)
+		return nil, pathErr("stat", name, syscall.EIO)
+	}
 	if berr == nil && filepath.Clean(name) == filepath.Clean(w.Dir) {
 		w.record(ev)
 		return fileInfo{b, 0}, nil
@@ -634,6 +696,11 @@ func (f *fd) Write(b []byte) (int, error) {
 	bn := filepath.Base(f.name)
 	p := w.enter(Op{Kind: "write", Name: bn}, vis)
 	ev := &Event{Pid: p.ID, Op: Op{Kind: "write", Name: bn}}
+	if p.takeFault() {
+		ev.Err = "EIO"
+		w.record(ev)
+		return 0, pathErr("write", f.name, syscall.EIO)
+	}
 	if f.closed {
 		ev.Err = "closed"
 		w.record(ev)
